@@ -41,6 +41,7 @@ type Engine struct {
 	tagIDs  map[string]int64
 	curFn   string
 	verbose bool
+	forceMerge bool
 }
 
 func NewEngine(repo string) *Engine {
@@ -362,6 +363,7 @@ func (e *Engine) strLit(s string) *Term {
 	name = fmt.Sprintf("%s$%d", name, len(e.strLits))
 	t := Var(name, StrSort)
 	e.strLits[s] = t
+	strLitRegistry[s] = t
 	return t
 }
 
